@@ -458,6 +458,10 @@ def _merge_masks(
     idx_values = list(idx_to_path.keys())
     idx_values.sort()
 
+    if n_genes is None:
+        # no pairs at all (a taxonomy with a single leaf)
+        n_genes = 0
+
     indices_dtype = choose_int_dtype((0, max(n_indices, n_genes)))
     if n_indices > 0:
         sparse_chunks = (min(n_indices, 1000000),)
